@@ -53,16 +53,6 @@ WITNESSES = [
           '    s.l = [ Leaf() for _ in range(2) ]\n    for i in range(2):\n      s.l[i].p //= s.p\n      s.o[i] //= s.l[i].o\n'},
 ]
 
-F23 = 'F23-yosys-truncating-cast-selects-an-expression'
-WITNESSES += [
-  {'label': F23 + ':witness', 'finding': F23, 'variant': 'compound', 'expect': ('syntax-invalid',), 'backends': ('yosys',),
-   'features': ['finding-stream'],
-   'cycles': [{'.a': 3, '.b': 4, '.reset': 0}],
-   'src': 'from pymtl3 import *\n'
-          'class Top( Component ):\n  def construct( s ):\n    s.a = InPort( Bits8 )\n    s.b = InPort( Bits8 )\n    s.o = OutPort( Bits4 )\n'
-          '    @update\n    def up():\n      s.o @= Bits4( s.a + s.b )\n'},
-]
-
 # witnesses of defects repaired by fix: commits 06cfd35 (F20) and ad19f30 (F21): clean corpus cases now
 CORPUS += [
   {'label': 'corpus:fixed:' + F20 + ':subcomponent', 'backends': ('verilog', 'yosys'),
@@ -106,3 +96,14 @@ CORPUS_F22 = [
 ]
 
 CORPUS += CORPUS_F22      # repaired by fix: commit 0d5888c
+
+F23 = 'F23-yosys-truncating-cast-selects-an-expression'
+CORPUS_F23 = [
+  {'label': 'corpus:fixed:' + F23, 'backends': ('verilog', 'yosys'), 'features': ['corpus', 'fixed-defect-shape'],
+   'cycles': [{'.a': 3, '.b': 4, '.reset': 0}],
+   'src': 'from pymtl3 import *\n'
+          'class Top( Component ):\n  def construct( s ):\n    s.a = InPort( Bits8 )\n    s.b = InPort( Bits8 )\n    s.o = OutPort( Bits4 )\n'
+          '    @update\n    def up():\n      s.o @= Bits4( s.a + s.b )\n'},
+]
+
+CORPUS += CORPUS_F23      # repaired by fix: commit b310bc9 (the PyMTL simulation raises: only the text is checked)
